@@ -1119,6 +1119,13 @@ def abort_violations(scn, op, before, snap, inv):
             continue
         tag = "[process-being-launched]" if name in in_launch else "[registered-process]"
         probs.append(("running-task-left-running-without-SIGTERM " + tag, {"process": name, "live": live}))
+    # A signal that arrives while the main thread is blocked in a system call (a write to its own stalled stdout:
+    # paused pager, Ctrl-S) interrupts that call and is acted upon at once.  If the call is restarted instead
+    # (handler installed with SA_RESTART) the Python-level handler cannot run until the call completes - the
+    # tasks run on for as long as the stall lasts (the simulated reader only resumes when nothing else can happen).
+    held = [e for e in inv.trace[ti_sent:] if e[0] == "restarted-call-holds-signal" and e[1] == "stdout-stalled"]
+    if live and held:
+        probs.append(("interrupt-not-acted-upon-while-blocked-on-own-stdout (tasks kept running)", {"live": live}))
     spawned_after = [e[1] for e in inv.trace[ti_sent:ti_done] if e[0] == "spawn"]
     for name in spawned_after:
         if name not in termed and name not in exited_before_end:
